@@ -242,6 +242,17 @@ def r_feeder(e, R):
         R.check(bad is None and esc2 is None and esc3 is None, "R-FEEDER", f"{f.short}: the sentinel closes the pipe and ends the thread, and is never sent", f.short,
                 "if obj is sentinel: close(); return", "the close sentinel is pickled and sent to a worker, or the feeder thread never ends (join at shutdown hangs)",
                 e.loc(f, pn.ast))
+    # the object handed to the error hook is the object that was popped: the variable is (re)defined only by the pop itself, so
+    # that a failure while *sending* still reports the task (not its pickled bytes) to the hook
+    hook_calls = [c for n in g.nodes for c in calls_in(n) if isinstance(c.func, ast.Name) and c.func.id == onerr]
+    redefs = [n for n in func_nodes(f) if isinstance(n, ast.Assign) and n is not pops[0] and any(isinstance(t, ast.Name) and t.id == ov for t in n.targets)] + \
+        [n for n in func_nodes(f) if isinstance(n, (ast.AugAssign, ast.AnnAssign)) and isinstance(n.target, ast.Name) and n.target.id == ov]
+    for c in hook_calls:
+        okv = len(c.args) == 2 and isinstance(c.args[1], ast.Name) and c.args[1].id == ov
+        R.check(okv and not redefs, "R-FEEDER", f"{f.short}: the error hook receives the popped object itself", f.short,
+                f"{norm(c)}; `{ov}` redefined: {[norm(r)[:40] for r in redefs]}" if redefs else norm(c),
+                f"`{ov}` is overwritten (e.g. by its own serialisation) before the hook can be called with it: when the *send* fails the hook gets bytes instead of the "
+                "task, does not recognise it and the task's future is never failed", e.loc(f, redefs[0] if redefs else c))
     # on this platform (write lock present) no send happens without the lock
     for pn in popn:
         bare = SC.Facts(posix, [is_sentinel(False)]).find(g, pn, lambda n: n in sends, avoid=lambda n: n in acq or n in heads, use_exc=False)
